@@ -389,7 +389,7 @@ def replay(path):
     det = d["detail"]
     if det.get("x12"):
         import x12_conn
-        return x12_conn.replay(det)
+        return x12_conn.replay(det, path)
     beh = det.get("behaviour")
     if not beh:
         print(json.dumps(det, indent=1)[:4000])
